@@ -40,6 +40,20 @@ checks.update({
    text="1.6k (quick) / 80k (thorough) histories: 2-4 uploaders x 1-3 rounds (later rounds hours to weeks later, start-time skew between uploaders, some anchored at the real clock) against a server answering each request 200/400/404/500/503/dropped, kills after any fs/HTTP call (park for ever: deferred cleanup never runs; incl. between ack and marker, while holding the lock). Checker: <=1 distinct acknowledged body per week and it is the complete reference report; no request while upload/<week>.json exists; only-5xx/unanswered weeks keep the report; 4xx removes it unmarked; crash-free histories acknowledge every uploadable week exactly once within rounds+1.",
    note="Uploaders are virtual threads in one process; kill = never scheduled again. Liveness is bounded (rounds+1). Four open known findings (F8, F14) are reported by exact signature.", ref="§2 C08, §4"),
 })
+checks.update({
+ "C05": dict(cat="fault_enumeration", tech="runtime fault injection at instrumented fs/mmap call sites (single faults enumerated over the recorded call sequence, sampled pairs) + corruption at rest + hostile directory states, with loop-tick budget, panic/fault guard and conservation audit per host call",
+   text="Counter side: a fault-free recording pass lists every fs/mmap call of the scenario (increment before open, open, increments, growth/remap, read, rotation); every call x 10 errnos (+short writes) is then failed in turn, plus 600 (quick) / 30k (thorough) fault pairs, deletion of the counter file or local dir between any two calls, 15 hostile initial states; 1k/40k counter files corrupted at rest (20 damage classes incl. cycles, wrapping limits) are opened and used. Each host call must return (no panic/fault), stay within the tick budget, and no counter may exceed its increments or decrease. Uploader side: public upload.Run / uploader.Run over directories with a damaged file, hostile layouts and injected faults must return, and the healthy week's report must be unchanged.",
+   note="Faults are injected where the rewriter can interpose (package-level os/syscall calls and *os.File methods in internal/counter, internal/mmap, internal/telemetry, internal/upload). The public counter package's process-global defaultFile is exercised through the same internal code paths on private file values, not through counter.Open itself.", ref="§2 C05"),
+ "C12": dict(cat="exploration", tech="runtime monitoring of the real handler chain over loopback HTTP: request classes with known verdicts, storage listing diff as oracle",
+   text="3k (quick) / 200k (thorough) requests in sequence against newHandler (log/timeout/size/recover middlewares, FS storage): valid reports (hostile X values, 0-2 programs), each single invalid aspect (week, config, X==0, every build field, counter/bucket/stack near-misses, empty unapproved program, null program), truncated/wrong-typed/partial JSON, random bytes, non-POST methods, bodies around the size limit with Content-Length and chunked encoding. MUST-STORE => 200 and exactly the object <Week>/<%g X>.json decoding to the report; MUST-REJECT => 4xx and unchanged listing; never 5xx, nothing outside the bucket.",
+   note="Trailing non-blank bytes after a valid report are a don't-care. FS backend only.", ref="§2 C12"),
+ "C13": dict(cat="exploration", tech="runtime monitoring of the real merge/chart handlers over FS buckets: reference counting of distinct report IDs, metamorphic determinism check across storage orders and repetitions",
+   text="150 (quick) / 4k (thorough) report sets (1-6 days x 0-40 reports, duplicate X, semver-equal versions, reports just under the 100 KiB limit): merged object = one line per stored object, equal content; chart NumReports and every partition datum equal reference counts of distinct X; chart bytes identical across three storage orders and three repetitions; missing day => 404 and no chart object; sub-ranges.",
+   note="Server-side configuration is well-formed (valid Go/semver versions).", ref="§2 C13"),
+ "C18": dict(cat="exploration", tech="model-based runtime monitoring: in-memory map model vs FSBucket over random operation sequences, with a file-system placement audit after every operation",
+   text="500 (quick) / 30k (thorough) sequences of write/overwrite (longer, shorter, empty)/read/read-absent/list(prefix)/Copy over nested names; prefixes at and inside component boundaries; after every op all regular files under the root are exactly <bucket>/<name> of the model.",
+   note="Names are ordinary slash-separated components; GCS backend not exercised.", ref="§2 C18"),
+})
 todo = {
 }
 names = ["C%02d" % i for i in range(1, 20)]
